@@ -58,6 +58,7 @@ TraceCmdUnwrap ==
   /\ IsEvent("Op", "cmdU") /\ Actor("C") /\ R.apdu = bytes
   /\ CmdUnwrap("C")
   /\ R.rc \in last'.rcs /\ R.ctr2 = R.ctr
+  /\ (chan.alt # "S" => R.rcf = "OK")                      \* format-only call: only structural alterations can fail it
   /\ (R.rc = "OK" => /\ R.out = SMCmdUnprot(bytes, SMKeys(key), R.ctr).cmd /\ R.sizeok
                      /\ RecoveredOk(R.out, Len(orig.cdf)))
   /\ UNCHANGED <<key, bytes, orig>>
@@ -65,6 +66,7 @@ TraceRespUnwrap ==
   /\ IsEvent("Op", "respU") /\ Actor("T") /\ R.apdu = bytes
   /\ RespUnwrap("T")
   /\ R.rc \in last'.rcs /\ R.ctr2 = R.ctr
+  /\ (chan.alt # "S" => R.rcf = "OK")
   /\ (R.rc = "OK" => /\ R.out = SMRespUnprot(bytes, SMKeys(key), R.ctr).resp /\ R.sizeok
                      /\ RecoveredOk(R.out, Len(orig.rdf)))
   /\ UNCHANGED <<key, bytes, orig>>
